@@ -10,6 +10,7 @@ import (
 	"math/rand"
 	"strings"
 	"sync"
+	"sync/atomic"
 
 	crypto "github.com/onflow/crypto"
 	"github.com/onflow/crypto/hash"
@@ -344,6 +345,42 @@ func Run(seed int64, goroutines, perG int, buggyShared bool) []Event {
 		}
 		for _, o := range append(append(first, mid...), last...) {
 			volley(o)
+		}
+	}
+	// phase 1a', first-use stampedes: many trials, each on FRESH key objects, in which all goroutines leave a spin barrier within
+	// a fraction of a microsecond and make the first use of one key object with one operation (whatever the object computes or
+	// caches on first use happens under real contention; a channel wake-up spreads the goroutines over microseconds)
+	{
+		var firstUse []op
+		for _, o := range volleys {
+			if strings.HasPrefix(o.key, "bls.VerifyPOP/") || strings.HasPrefix(o.key, "bls.Verify/") || strings.HasPrefix(o.key, "bls.SPOCKVerify/") {
+				firstUse = append(firstUse, o)
+			}
+		}
+		trials := 8 * perG / 3
+		for trial := 0; trial < trials && len(firstUse) > 0; trial++ {
+			rsk, rpk := mkKeys()
+			copy(blsSK, rsk)
+			copy(blsPK, rpk)
+			if trial%2 == 1 { // decoded objects: nothing about them was ever computed
+				for i := range blsPK {
+					blsPK[i], _ = crypto.DecodePublicKey(crypto.BLSBLS12381, rpk[i].Encode())
+				}
+			}
+			o := firstUse[(trial*5+int(seed%7+7))%len(firstUse)]
+			var arrived int32
+			var wg sync.WaitGroup
+			for gi := 0; gi < goroutines; gi++ {
+				wg.Add(1)
+				go func(gid int) {
+					defer wg.Done()
+					atomic.AddInt32(&arrived, 1)
+					for atomic.LoadInt32(&arrived) < int32(goroutines) {
+					}
+					call(gid, o, owns[gid])
+				}(gi)
+			}
+			wg.Wait()
 		}
 	}
 	// phase 1b, mixed volleys: the operations of one family (one function) on DIFFERENT arguments, all at the same moment
